@@ -53,7 +53,9 @@ def vInner (nonce sn g : Nat) (dhPrime ga : Bytes) (time : Nat) : Val :=
 
 def vDHGenOk (nonce sn h : Nat) : Val := .obj idDHGenOk [.big 16 nonce, .big 16 sn, .big 16 h]
 
-/-! ### views: Go's type assertions and field reads on a decoded object -/
+/-! ### views: Go's type assertions and field reads on a decoded object
+
+(`*tl.Int128` fields are `.big 16 _`: the decoder produces no other width for them.) -/
 
 /-- the `[]int64` of `ResPQ.Fingerprints` as unsigned 64-bit patterns -/
 def longsOf : List Val → List Nat
@@ -70,7 +72,7 @@ structure ResPQ where
 
 /-- `data.(*objects.ResPQ)` -/
 def asResPQ : Val → Option ResPQ
-  | .obj id [.big _ n, .big _ s, .bytes _ pq, .vec _ fps] =>
+  | .obj id [.big 16 n, .big 16 s, .bytes _ pq, .vec _ fps] =>
     if id = idResPQ then some ⟨n, s, pq, longsOf fps⟩ else none
   | _ => none
 
@@ -82,7 +84,7 @@ structure DHOk where
 
 /-- `dhResponse.(*objects.ServerDHParamsOk)` -/
 def asDHOk : Val → Option DHOk
-  | .obj id [.big _ n, .big _ s, .bytes _ enc] => if id = idDHOk then some ⟨n, s, enc⟩ else none
+  | .obj id [.big 16 n, .big 16 s, .bytes _ enc] => if id = idDHOk then some ⟨n, s, enc⟩ else none
   | _ => none
 
 structure Inner where
@@ -95,7 +97,7 @@ structure Inner where
 
 /-- `data.(*objects.ServerDHInnerData)` -/
 def asInner : Val → Option Inner
-  | .obj id [.big _ n, .big _ s, .word g, .bytes _ dp, .bytes _ ga, .word _] =>
+  | .obj id [.big 16 n, .big 16 s, .word g, .bytes _ dp, .bytes _ ga, .word _] =>
     if id = idInner then some ⟨n, s, g, dp, ga⟩ else none
   | _ => none
 
@@ -107,7 +109,7 @@ structure DHGen where
 
 /-- `dhGenStatus.(*objects.DHGenOk)` -/
 def asDHGenOk : Val → Option DHGen
-  | .obj id [.big _ n, .big _ s, .big _ h] => if id = idDHGenOk then some ⟨n, s, h⟩ else none
+  | .obj id [.big 16 n, .big 16 s, .big 16 h] => if id = idDHGenOk then some ⟨n, s, h⟩ else none
   | _ => none
 
 def objId : Val → Option Nat
